@@ -16,6 +16,9 @@ R19.5 every volume change in the loop is followed by the non-positive test befor
 R19.6 own state: inside SimulateSingleCell the state buffer (self.c_current_state) is never read
 before it has been loaded, on that path, from the cell being simulated (its stored state or the
 model's initial state); every reported row therefore describes this cell and not the previous one.
+R19.3c grid cut: the daughters' time grid starts at the first grid point not before the division time, found by a first-hit scan
+over the grid values (any spacing).
+R19.4b rows written: after the loop the result arrays keep only rows the loop has written.
 """
 import ast
 
